@@ -48,10 +48,15 @@ def nontrivial(tr):
     return False
 
 
+def sig(tr):
+    sc = tr["meta"]["scenario"]
+    return common.json.dumps([sc["dll"], [n["maxc"] for n in sc["nodes"]], sc["sends"][0]["pf"], sc["preempt"]])
+
+
 def run(chk, replay):
     chk.rule = ("per shape (RTS/CTS windows 1, 2, all and BAM, J1939-21 30 bytes / J1939-22 250 bytes): every executed "
                 "(stack, file, line, occurrence) of the job threads x hold in {0.2, 1, 5} ms (quick: one hold per point, "
-                "rotating), plus seeded double pre-emptions; distinct = distinct abstract event sequence; non-trivial = a "
+                "rotating), plus seeded double pre-emptions; distinct = distinct (shape, pre-emption point(s), hold); non-trivial = a "
                 "frame was received by the held stack while its job thread was suspended")
     chk.assumptions = ["pre-emption granularity = source line (as the property states); finer (bytecode) interleavings "
                        "are covered only as far as they coincide with a line boundary",
@@ -81,7 +86,7 @@ def run(chk, replay):
         for _ in range(40 if quick else 600):
             a, b = rng.sample(pts, 2)
             traces.append(preempt.run(sc, a, rng.choice(HOLDS), second=b)[0])
-        chk.validate(spec + ".tla", spec + ".cfg", traces, "%s%s" % (dll[-2:], name), nontrivial=nontrivial)
+        chk.validate(spec + ".tla", spec + ".cfg", traces, "%s%s" % (dll[-2:], name), sig=sig, nontrivial=nontrivial)
     chk.exhaustive = True
     chk.extra["preemption_points"] = npoints
 
